@@ -20,6 +20,7 @@ the consequences A|B == A.
 """
 import ast
 import itertools
+from fractions import Fraction as Fr
 
 from verifkit import pat
 from verifkit.absrun import Obj, Runner, StandIn
@@ -594,47 +595,110 @@ def r03_3(ctx):
     return out
 
 
+class _SegW(StandIn):
+    """segment of the queried curve: evaluation returns tokens that remember segment index and parameter"""
+
+    def __init__(self, idx):
+        self.idx = idx
+
+    def eval(self, nodes):
+        try:
+            return tuple(("pt", self.idx, Fr(n)) for n in nodes)
+        except TypeError:
+            return ("pt", self.idx, Fr(nodes))
+
+    __call__ = eval
+
+
+class _CurveW(StandIn):
+    """the queried curve: three vertices, three segments and a tabulated (unsorted, repeated) crossing list"""
+    CROSSINGS = [(0, 5, Fr(3, 4), Fr(0)), (0, 7, Fr(1, 4), Fr(1, 2)), (2, 1, Fr(1, 2), Fr(0)), (0, 2, Fr(1, 2), Fr(1, 3)),
+                 (0, 3, Fr(1, 4), Fr(2, 3))]
+
+    def __init__(self):
+        self.segments = tuple(_SegW(i) for i in range(3))
+        self.vertices = tuple(("pt", i, Fr(0)) for i in range(3))
+
+    def points(self, subnpts=None):
+        return self.vertices
+
+    def __and__(self, other):
+        return list(self.CROSSINGS)
+
+    def __rand__(self, other):
+        return [(b, a, v, u) for a, b, u, v in self.CROSSINGS]
+
+
+class _SelfW(StandIn):
+    def __init__(self, outside):
+        self.outside, self.asked = outside, []
+        self.jordans = (Obj("own_curve"),)
+
+    def contains_point(self, point, boundary="<default>"):
+        self.asked.append((point, boundary))
+        return not self.outside(point)
+
+    _contains_point = contains_point
+
+    def __contains__(self, point):
+        return self.contains_point(point)
+
+
+def contains_jordan_world(ctx, out, parts=("vertices", "mids", "flag")):
+    """SimpleShape._contains_jordan on an abstract curve (W): vertices (0..2), crossings of segment 0 at 1/4, 1/2, 3/4 and
+    of segment 2 at 1/2.  Decided on the outcome of the run: which points were tested with which flag, and the result"""
+    from verifkit.finite import Raised
+    fn = ctx.fn("shape.SimpleShape._contains_jordan")
+    gaps = [(0, Fr(1, 4), Fr(1, 2)), (0, Fr(1, 2), Fr(3, 4))]
+    scen = [("everything inside", lambda p: False, True),
+            ("vertex 1 outside", lambda p: p == ("pt", 1, Fr(0)), False),
+            ("curve leaves between the crossings at 1/2 and 3/4 of segment 0",
+             lambda p: p[1] == 0 and Fr(1, 2) < p[2] < Fr(3, 4), False),
+            ("curve leaves between the crossings at 1/4 and 1/2 of segment 0",
+             lambda p: p[1] == 0 and Fr(1, 4) < p[2] < Fr(1, 2), False)]
+    bad = set()
+    for flag in (True, False):
+        for label, outside, want in scen:
+            S, J = _SelfW(outside), _CurveW()
+            try:
+                got = Runner(ctx, set(), None).call_fn(fn, [S, J, flag])
+            except (Undecided, Raised) as ex:
+                out.undecided(fn.qname, f"{label}: {ex}", where=fn.where())
+                return
+            pts = [p for p, f in S.asked]
+            if not S.asked:
+                bad.add(("flag", "no point-containment test of the sampled curve points"))
+                bad.add(("vertices", "the vertices of the curve are not all tested"))
+                continue
+            if any(f is not flag for p, f in S.asked):
+                bad.add(("flag", "a sampled curve point is tested without forwarding the caller's boundary flag"))
+            if label == "everything inside":
+                if not all(v in pts for v in J.vertices):
+                    bad.add(("vertices", "the vertices of the curve are not all tested"))
+                if not all(any(p[1] == i and a < p[2] < b for p in pts) for i, a, b in gaps):
+                    bad.add(("mids", "no test of curve points between consecutive crossings"))
+            if bool(got) != want:
+                if "vertex" in label:
+                    bad.add(("vertices", "the vertices of the curve are not all tested"))
+                elif "between" in label:
+                    bad.add(("mids", "no test of curve points between consecutive crossings"))
+                else:
+                    bad.add(("vertices", "a curve whose sampled points are all contained is reported as not contained"))
+    for part, fact in sorted(bad):
+        if part in parts:
+            out.bad(fn.qname, fact, where=fn.where())
+    if "vertices" in parts and not any(p == "vertices" for p, _ in bad):
+        out.ok(fn.qname, "every vertex of the curve must be contained", where=fn.where())
+    if "mids" in parts and not any(p == "mids" for p, _ in bad):
+        out.ok(fn.qname, "a point between every two consecutive sorted crossing parameters is tested", where=fn.where())
+    if "flag" in parts and not any(p == "flag" for p, _ in bad):
+        out.ok(fn.qname, "every sampled point is tested with the caller's boundary flag", where=fn.where())
+
+
 def r03_4(ctx):
     out = Outcome("R03.4", "SimpleShape._contains_jordan returns False as soon as a vertex of the curve is not "
                            "contained (caller's boundary flag), and tests points between consecutive crossings", floor=2)
-    fn = ctx.fn("shape.SimpleShape._contains_jordan")
-    defs = pat.local_defs(fn)
-    qs = pat.quantifiers(fn)
-    selfn, jn = fn.params[0], fn.params[1]
-    vert = None
-    for q in qs:
-        it = q.iter
-        if isinstance(it, ast.Call) and isinstance(it.func, ast.Attribute) and it.func.attr in ("points", "vertices") \
-                and pat.is_name(it.func.value, jn):
-            vert = q
-        if isinstance(it, ast.Attribute) and it.attr == "vertices" and pat.is_name(it.value, jn):
-            vert = q
-    if vert is None:
-        # the function has two loops that each return False; recognise the first by its collection
-        loops = [lp for lp in pat.loops(fn) if isinstance(lp.iter, ast.Call) and isinstance(lp.iter.func, ast.Attribute)
-                 and lp.iter.func.attr == "points" and pat.is_name(lp.iter.func.value, jn)]
-        ok = False
-        for lp in loops:
-            for n in ast.walk(lp.node):
-                if isinstance(n, ast.If) and any(isinstance(b, ast.Return) and pat.const_bool(b.value) is False for b in n.body):
-                    t, neg = pat._strip_not(n.test)
-                    if neg and isinstance(t, ast.Call) and isinstance(t.func, ast.Attribute) \
-                            and t.func.attr in ("contains_point", "_contains_point") and pat.is_name(t.func.value, selfn):
-                        ok = True
-        (out.ok if ok else out.bad)(fn.qname, "every end point of every segment must be contained" if ok else
-                                    "the vertices of the curve are not all tested", where=fn.where())
-    else:
-        good = vert.kind == "forall" and not vert.negated
-        (out.ok if good else out.bad)(fn.qname, "forall vertices: contained" if good else
-                                      f"vertex test is '{vert.kind}' (negated={vert.negated})", where=fn.where(vert.node))
-    # mid-crossing sampling present: a loop evaluating the curve between sorted crossing parameters
-    mids = [n for n in ast.walk(fn.node) if isinstance(n, ast.BinOp) and isinstance(n.op, ast.Div)
-            and isinstance(n.left, ast.BinOp) and isinstance(n.left.op, ast.Add) and pat.const_value(n.right) == 2]
-    srt = [n for n in ast.walk(fn.node) if isinstance(n, ast.Call) and isinstance(n.func, ast.Name) and n.func.id == "sorted"]
-    if mids and srt:
-        out.ok(fn.qname, "midpoints between consecutive sorted crossing parameters are tested", where=fn.where(mids[0]))
-    else:
-        out.bad(fn.qname, "no test of curve points between consecutive crossings", where=fn.where())
+    contains_jordan_world(ctx, out, ("vertices", "mids"))
     return out
 
 
